@@ -5,6 +5,8 @@ import MotoModel.Model.Tape
 import MotoModel.Spec.K7
 import MotoModel.Model.DiskCli
 import MotoModel.Spec.Dos
+import MotoModel.Model.Basic
+import MotoModel.Spec.BasicRef
 open Moto
 
 def hexVal (c : Char) : Nat :=
@@ -100,6 +102,13 @@ def handle (args : List String) : String :=
   | "k7.tape" :: rest => hex (Spec.K7.tape (sfilesOf rest))
   | "k7.encsize" :: rest => toString (Spec.K7.encSize (sfilesOf rest))
   | "k7.render" :: pre :: rest => hex (Spec.K7.render (unhex pre) (wblocksOf rest))
+  | ["bas.convert", t] => (match Basic.convert (uncp t) with | some b => hex b | none => "ValueError")
+  | ["bas.body", t] => hex (Basic.encodeBody (uncp t))
+  | ["bas.ref", t] => (if Spec.BasicRef.delimited (uncp t) then "1" else "0") ++ " " ++ hex (Spec.BasicRef.encodeRef (uncp t))
+  | ["bas.program", f] =>
+      (match Spec.BasicRef.parseProgram (unhex f) with
+       | none => "bad"
+       | some p => ";".intercalate (p.lines.map fun r => s!"{r.2.1}:{hex r.2.2}:{cp (Spec.BasicRef.decode false r.2.2)}"))
   | ["prettier", t] => ";".intercalate ((prettierText (uncp t)).map cp)
   | "nl" :: s :: i :: w :: files =>
       ";".intercalate ((nlRun ⟨s.toNat!, i.toNat!, w.toNat!⟩ (files.map uncp)).map cp)
